@@ -3,6 +3,7 @@
 R = "@REPO@/lib/upipe/"
 M = "@REPO@/lib/upipe-modules/"
 T = "@REPO@/lib/upipe-ts/"
+F = "@REPO@/lib/upipe-framers/"
 H = "@VERIF@/harness/"
 E = "@VERIF@/engine/"
 
@@ -22,6 +23,10 @@ MODS = [M + f for f in (
     "upipe_aggregate.c", "upipe_chunk_stream.c", "upipe_time_limit.c", "upipe_genaux.c", "upipe_buffer.c", "upipe_rate_limit.c",
     "upipe_burst.c", "upipe_convert_to_block.c", "upipe_discard_blocking.c", "upipe_dump.c", "upipe_noclock.c", "upipe_nodemux.c",
     "upipe_setrap.c",
+    "upipe_dejitter.c", "upipe_multicat_probe.c", "upipe_aes_decrypt.c", "upipe_block_to_sound.c", "upipe_dtsdi.c", "upipe_rtp_pcm_unpack.c",
+    "upipe_m3u_reader.c", "upipe_void_source.c", "upipe_even.c", "upipe_trickplay.c", "upipe_play.c", "upipe_stream_switcher.c",
+    "upipe_separate_fields.c", "upipe_row_split.c", "upipe_row_join.c", "upipe_ntsc_prepend.c", "upipe_rtp_pcm_pack.c", "upipe_audio_copy.c",
+    "upipe_subpic_schedule.c", "upipe_crop.c", "upipe_video_blank.c", "upipe_audio_blank.c", "upipe_sine_wave_source.c",
 )]
 PIPEX = CORE + MODS + [E + "vmock_upump.c", E + "simfd.c"]
 
@@ -34,7 +39,10 @@ HARNESSES = {
     "c01_uref": {"src": [H + "c01_uref.c"] + PIPEX},
     "c12_request": {"src": [H + "c12_request.c", T + "upipe_ts_align.c", T + "upipe_ts_sync.c", T + "upipe_ts_check.c", "@REPO@/lib/upipe-framers/upipe_auto_framer.c"] + PIPEX},
     "c14_rechunk": {"src": [H + "c14_rechunk.c", T + "upipe_ts_sync.c", T + "upipe_ts_check.c", T + "upipe_ts_align.c"] + PIPEX},
-    "pipex_cat": {"src": [H + "pipex_cat.c", T + "upipe_ts_sync.c", T + "upipe_ts_check.c", T + "upipe_ts_align.c", T + "upipe_ts_psi_split.c", T + "upipe_ts_split.c"] + PIPEX},
+    "pipex_cat": {"src": [H + "pipex_cat.c", T + "upipe_ts_sync.c", T + "upipe_ts_check.c", T + "upipe_ts_align.c", T + "upipe_ts_psi_split.c", T + "upipe_ts_split.c",
+                          T + "upipe_ts_pid_filter.c", T + "upipe_ts_pcr_interpolator.c", T + "upipe_ts_tstd.c",
+                          T + "upipe_ts_decaps.c", T + "upipe_ts_pes_decaps.c", T + "upipe_ts_psi_merge.c", T + "upipe_ts_psi_join.c",
+                          F + "upipe_opus_framer.c", F + "upipe_telx_framer.c", F + "upipe_s302_framer.c"] + PIPEX},
     "c07_lin": {"src": [H + "c07_lin.c"] + VS},
     "c19_window": {"src": [H + "c19_window.c", R + "ubuf_mem_common.c", R + "ubuf_mem.c", R + "ubuf_pic_mem.c", R + "ubuf_pic_common.c", R + "ubuf_pic.c",
                            R + "ubuf_sound_mem.c", R + "ubuf_sound_common.c", R + "ubuf_block_mem.c", R + "uref_pic_flow.c", R + "udict_inline.c",
@@ -313,7 +321,7 @@ CHECKS["C19"] = {
 
 def _c14_jobs(tier):
     q = tier == "quick"
-    dl = 70 if q else 840
+    dl = 100 if q else 840
     jobs = [("c14_rechunk", ["--pipe", "agg", "--maxn", 9 if q else 12, "--deadline", dl]),
             ("c14_rechunk", ["--pipe", "chunk", "--maxn", 10 if q else 13, "--deadline", dl])]
     def sh(pipe, n, alphabet, maxn, minn=0):
@@ -322,23 +330,25 @@ def _c14_jobs(tier):
     if q:
         sh("ts_sync", 8, "470001", 7)
         sh("ts_align", 3, "470001", 6)
-        sh("ts_check", 3, "470001", 7)
+        sh("ts_check", 4, "470001", 7)
+        sh("ts_check>agg", 4, "470001", 6)
     else:
         sh("ts_sync", 16, "470001", 8)
         sh("ts_sync", 4, "4700", 9, 9)
         sh("ts_align", 6, "470001", 7)
         sh("ts_check", 6, "470001", 8)
+        sh("ts_check>agg", 4, "470001", 7)
     return jobs
 
 CHECKS["C14"] = {
     "engine": "seqx", "design_ref": "DESIGN.md section 3 C14",
     "technique": "exhaustive enumeration of all byte streams over a 2-3 symbol alphabet x all cuttings into buffers (segmented chunks, inserted empty buffers, discontinuity) x configurations on the real aggregate / chunk_stream / ts_sync / ts_check / ts_align pipes, vs reference re-chunkers and the uncut run",
-    "level_text": "Every byte stream up to the stated length (TS pipes: all strings over {0x47,0x00,0x01}; aggregate/chunk: position-coded octets), cut in every possible way into buffers, each chunk also as two segments, with an empty buffer inserted at every position, for every configuration (aggregate MTU 1/3/4/8 with and without input-size hint; chunk (mtu,align) in 5 settings; TS packet size 2-4 x sync count 2-3), run on the real pipes and released: outputs must be in-order non-overlapping pieces of the input, aggregate/chunk must output every accepted octet exactly once but for the unaligned tail with every unit within the configured size, TS units must be whole packets starting with 0x47 and equal to a reference synchroniser's, chunk/ts_sync/ts_align outputs must equal those of the uncut run, release must return (watchdog) and leave nothing allocated. Bounded, not a proof.",
+    "level_text": "Every byte stream up to the stated length (TS pipes: all strings over {0x47,0x00,0x01}; aggregate/chunk: position-coded octets), cut in every possible way into buffers, each chunk also as two segments, with an empty buffer inserted at every position, and as ONE buffer whose segments are the chunks (its outputs must equal those of the same buffer in one segment), for every configuration (aggregate MTU 1/3/4/8 with and without input-size hint; chunk (mtu,align) in 5 settings; TS packet size 2-4 x sync count 2-3), run on the real pipes and released: outputs must be in-order non-overlapping pieces of the input, aggregate/chunk must output every accepted octet exactly once but for the unaligned tail with every unit within the configured size, TS units must be whole packets starting with 0x47 and equal to a reference synchroniser's, chunk/ts_sync/ts_align outputs must equal those of the uncut run, the chain ts_check -> aggregate (MTU 2-3 packets) must output, regrouped, exactly the packets ts_check lets through alone, release must return (watchdog) and leave nothing allocated. Bounded, not a proof.",
     "level_note": "Packet sizes 2-4 stand for 188 (the code is size-generic); options are set while nothing is pending. Outside: longer streams, alphabets beyond 3 symbols, option changes mid-stream.",
     "jobs": {"quick": _c14_jobs("quick"), "thorough": _c14_jobs("thorough")},
     "rule": "state = one (stream, configuration); transition = one cutting/variant of it run on the real pipe; non-trivial = runs that produced at least one output unit",
-    "bounds": {"quick": "ts_sync/ts_check: all streams of length <= 7 over 3 symbols; ts_align <= 6; aggregate <= 9, chunk <= 10 octets; all cuttings, 2-segment chunks, one empty buffer at every position, discontinuity at every chunk (ts_sync)",
-               "thorough": "ts_sync/ts_check <= 8 (3 symbols) and ts_sync = 9 (2 symbols); ts_align <= 7; aggregate <= 12, chunk <= 13"},
+    "bounds": {"quick": "ts_sync/ts_check: all streams of length <= 7 over 3 symbols; ts_align and ts_check>aggregate <= 6; aggregate <= 9, chunk <= 10 octets; all cuttings, 2-segment chunks, one empty buffer at every position, discontinuity at every chunk (ts_sync)",
+               "thorough": "ts_sync/ts_check <= 8 (3 symbols) and ts_sync = 9 (2 symbols); ts_align and ts_check>aggregate <= 7; aggregate <= 12, chunk <= 13"},
     "assumptions": DEFAULT_ASSUME + ["the reference synchroniser follows the documented mechanism (N sync octets one packet apart; at release, while locked, whole packets starting with the sync octet)"],
     "job_timeout": {"quick": 200, "thorough": 1200},
 }
@@ -347,11 +357,22 @@ CHECKS["C14"] = {
 CAT_ROWS = ["skip>htons", "setattr>delay>idem", "idem", "skip", "htons", "delay", "setattr", "setflowdef", "probe_uref", "match_attr", "null", "dup", "time_limit", "genaux",
             "buffer", "rate_limit", "qsink", "qsink_noloop", "agg", "chunk", "ts_sync", "ts_check", "ts_align", "ts_psi_split", "ts_split",
             "burst", "convert_to_block", "discard_blocking", "dump", "noclock", "nodemux", "setrap"]
+# second batch of generic rows (pipex_cat also has the rows block_to_sound, rtp_pcm_unpack, m3u_reader, row_join, even, trickplay and stream_switcher:
+# they are not listed because the unchanged tree violates C01/C04 on them, see the findings)
+CAT_GENERIC2 = ("dejitter", "multicat_probe", "aes_decrypt", "aes_decrypt_clear", "dtsdi", "ts_pidf", "ts_pcr_interpolator", "ts_tstd", "ts_decaps", "ts_pes_decaps",
+                "ts_psi_merge", "telx_framer", "s302_framer", "opus_framer", "void_source", "sine_wave_source", "separate_fields", "row_split", "ntsc_prepend",
+                "rtp_pcm_pack", "audio_copy", "crop", "video_blank", "audio_blank", "subpic_schedule",
+                "dejitter_sub", "subpic_schedule_sub", "play", "ts_psi_join")
+CAT_ROWS += list(CAT_GENERIC2)
+# generic rows whose depth differs from (quick 4, thorough 5): input-subpipe rows need one more step (allocate the subpipe); ntsc_prepend moves 720x480 pictures
+CAT_GENERIC_DEPTH = {"dejitter_sub": (5, 6), "subpic_schedule_sub": (5, 6), "play": (5, 6), "ts_psi_join": (5, 6), "ntsc_prepend": (4, 4)}
+# rows left out of C20: ts_tstd (a refused set_flow_def changes the octet rate in use, see the findings); the sources start on any control command, a getter included
+C20_EXCLUDED = ("ts_tstd", "void_source", "sine_wave_source")
 CAT_HEAVY = {"buffer": 1, "setattr>delay>idem": 1, "ts_split": 1, "ts_psi_split": 1}
 
 C20_HEAVY = {"rate_limit": 1, "ts_sync": 1, "time_limit": 1, "qsink": 1, "skip>htons": 1, "buffer": 0, "skip": 1, "dup": 1, "genaux": 1, "delay": 1, "setattr": 1, "setflowdef": 1, "match_attr": 1}   # two instances per history
 
-CAT_GENERIC = ("burst", "convert_to_block", "discard_blocking", "dump", "noclock", "nodemux", "setrap")
+CAT_GENERIC = ("burst", "convert_to_block", "discard_blocking", "dump", "noclock", "nodemux", "setrap") + CAT_GENERIC2
 
 def _cat_jobs(oracle, tier, rows=CAT_ROWS, pools=(0, 2)):
     q = tier == "quick"
@@ -359,8 +380,11 @@ def _cat_jobs(oracle, tier, rows=CAT_ROWS, pools=(0, 2)):
     for r in rows:
         d = (5 if q else 6) - CAT_HEAVY.get(r, 0) - (C20_HEAVY.get(r, 0) if oracle == "C20" else 0)
         # (pool, who provides managers: 0 the probes / 1 the sinks with shared managers, depth)
+        if oracle == "C20" and r in C20_EXCLUDED:
+            continue
         if r in CAT_GENERIC:
-            axes = [(pools[0], 0, 4)] if q else [(pools[0], 0, 5), (pools[-1], 1, 5)]
+            gq, gt = CAT_GENERIC_DEPTH.get(r, (4, 5))
+            axes = [(pools[0], 0, gq)] if q else [(pools[0], 0, gt), (pools[-1], 1, gt)]
         elif q:
             axes = [(pools[0], 0, d)] + [(p, 1, d - 1) for p in pools[1:]]
         else:
@@ -369,14 +393,20 @@ def _cat_jobs(oracle, tier, rows=CAT_ROWS, pools=(0, 2)):
             jobs.append(("pipex_cat", ["--row", r, "--oracle", oracle, "--pool", pool, "--prov", prov, "--depth", depth, "--deadline", 75 if q else 840]))
     return jobs
 
-_CAT_BOUNDS = {"quick": "32 catalogue rows (29 pipes, the queue pair also without an event loop for the source, 2 chains): every sequence of up to 5 operations (4 for buffer and the 3-pipe chain) with pool depth 0 and managers provided by the probes, and up to 4 (3) operations with pool depth 2 and managers provided by the sinks (shared managers), over the row's alphabet "
+_CAT_BOUNDS = {"quick": "61 catalogue rows (the first 32: 29 pipes, the queue pair also without an event loop for the source, 2 chains; then 29 further rows with the generic oracles only, depth 4, input-subpipe rows depth 5): every sequence of up to 5 operations (4 for buffer and the 3-pipe chain) with pool depth 0 and managers provided by the probes, and up to 4 (3) operations with pool depth 2 and managers provided by the sinks (shared managers), over the row's alphabet "
                         "(set_flow_def F1/F2/foreign, 5 input shapes incl. empty, 3+2-segment and shared-segment buffers, set_output S0/S1(rejecting)/NULL, sink answer toggle, flush, "
                         "every option setter x 3-4 values, subpipe alloc/set_output/release, pump dispatch, an upstream request whose answer makes the upstream push a buffer, "
                         "a probe that tears the subpipes down on source_end, release), followed by release of everything and a run of the event loop to quiescence",
                "thorough": "same alphabet, one operation deeper, all four (pool, provider) combinations"}
 _CAT_NOTE = ("Pipe-private state is not readable from outside, so histories are not merged: the full tree is enumerated up to the depth. "
              "Catalogue: idem skip htons delay setattr setflowdef probe_uref match_attr null dup(+2 output subpipes) time_limit genaux buffer rate_limit "
-             "queue_sink+queue_source(one thread, mock loop; also with a source that never gets a loop and is destroyed with a non-empty queue) aggregate chunk_stream ts_sync ts_check ts_align ts_psi_split(+2 filtered outputs) ts_split(+2 PID outputs) burst convert_to_block discard_blocking dump noclock nodemux setrap (the last seven with the generic oracles only), and the chains skip>htons and setattr>delay>idem; other pipe types are outside the bound.")
+             "queue_sink+queue_source(one thread, mock loop; also with a source that never gets a loop and is destroyed with a non-empty queue) aggregate chunk_stream ts_sync ts_check ts_align ts_psi_split(+2 filtered outputs) ts_split(+2 PID outputs) burst convert_to_block discard_blocking dump noclock nodemux setrap (the last seven with the generic oracles only), and the chains skip>htons and setattr>delay>idem; "
+             "further rows with the generic oracles only, each with the input definition, attributes and input content its pipe requires "
+             "(text / TS / PES / PSI / framer content from per-row tables, pictures and sound from the upstream's own managers, buffers without payload for the blank generators): "
+             "dejitter (main input; and main + input subpipes) multicat_probe aes_decrypt (AES-128 key / pass-through) dtsdi ts_pid_filter ts_pcr_interpolator ts_tstd (not C20) "
+             "ts_decaps ts_pes_decaps ts_psi_merge ts_psi_join(input subpipes) telx_framer s302_framer opus_framer void_source sine_wave_source (sources, mock timers; not C20) "
+             "separate_fields row_split ntsc_prepend crop (pictures) rtp_pcm_pack audio_copy (sound) video_blank audio_blank subpic_schedule (main input; and main + input subpipes) "
+             "play(input subpipes); other pipe types are outside the bound.")
 
 def _c01_uref_jobs(tier):
     q = tier == "quick"
@@ -413,8 +443,8 @@ CHECKS["C05"] = {
     "technique": "explicit-state enumeration of all input/control sequences up to a depth on every pass-through / split / buffering catalogue pipe (real code); sequence numbers in payload and attribute checked at recording sinks against the documented transformation and a model of the output contract",
     "level_text": "Same enumeration as C01 (buffers of 0, 2, 3 and 5 octets, one or two segments, dated). Every buffer seen by a sink must be one that was input, at most once per sink, in input order, with exactly the documented change (identity; skip offset removed; octet pairs swapped; delay added to the three dates; attributes added; match_attr predicate) on payload, attributes, dates and flags; one-to-one and duplicating pipes deliver during the input call or never, to exactly the sinks a model of the output contract names (definition stored, output connected, definition accepted) - so a lost, extra or misrouted buffer is caught; holding pipes (time_limit, genaux, buffer, rate_limit, queue sink + source) keep arrival order and, when the output stays connected and accepting, deliver everything once the loop is quiescent; whatever is still held at the end is freed (accounting as in C01). Bounded, not a proof.",
     "level_note": _CAT_NOTE + " Chains: skip>htons and setattr>delay>idem only.",
-    "jobs": {"quick": _cat_jobs("C05", "quick", [r for r in CAT_ROWS if r not in ("qsink_noloop", "agg", "chunk", "ts_sync", "ts_check", "ts_align", "ts_psi_split", "ts_split", "burst", "convert_to_block", "discard_blocking", "dump", "noclock", "nodemux", "setrap")]),
-             "thorough": _cat_jobs("C05", "thorough", [r for r in CAT_ROWS if r not in ("qsink_noloop", "agg", "chunk", "ts_sync", "ts_check", "ts_align", "ts_psi_split", "ts_split", "burst", "convert_to_block", "discard_blocking", "dump", "noclock", "nodemux", "setrap")])},
+    "jobs": {"quick": _cat_jobs("C05", "quick", [r for r in CAT_ROWS if r not in ("qsink_noloop", "agg", "chunk", "ts_sync", "ts_check", "ts_align", "ts_psi_split", "ts_split", "burst", "convert_to_block", "discard_blocking", "dump", "noclock", "nodemux", "setrap") + CAT_GENERIC2]),
+             "thorough": _cat_jobs("C05", "thorough", [r for r in CAT_ROWS if r not in ("qsink_noloop", "agg", "chunk", "ts_sync", "ts_check", "ts_align", "ts_psi_split", "ts_split", "burst", "convert_to_block", "discard_blocking", "dump", "noclock", "nodemux", "setrap") + CAT_GENERIC2])},
     "rule": "state = one operation history (no merging); non-trivial = histories in which at least one buffer reached a sink",
     "bounds": _CAT_BOUNDS,
     "assumptions": DEFAULT_ASSUME + ["skip offsets never exceed the buffer size (undefined by the documentation)"],
